@@ -109,7 +109,7 @@ def run(ctx):
     ctx.rule("all ordered pairs from a pool of gates holding, for many operations, several representations (negated axis and "
              "angle, half turn with negated axis and shifted phase, identity with any axis, controlled vs matrix form, operands "
              "in different order, embedded on different operand sets) and near-misses (1e-12..1e-2, relative phases); circuit "
-             "equality statement-wise; non-trivial = pairs of distinct pool entries")
+             "equality statement-wise; compare, map the circuit, compare again on the same gate objects (answers must be those of freshly built gates); non-trivial = pairs of distinct pool entries")
     P, objs = run_pairs_and_history(ctx)
     ctx.sample({"left": P[0], "right": P[1], "equal": py_eq(objs[0], objs[1])})
     # circuit equality is statement-wise
@@ -120,6 +120,17 @@ def run(ctx):
         check_circuit_eq(ctx, {"nq": nq, "specs": specs, "kind": "circuit"}, rng.randrange)
         n_c += 1
     ctx.suite("circuits", cases=n_c)
+    # equality after compare -> map -> compare on the same gate objects
+    n_m = 0
+    for _ in range(ctx.pick(150, 1500)):
+        nq = rng.randint(2, 3)
+        specs = gen.rand_circuit_spec(rng, nq, 1, rng.randint(1, 5), max_ctrl=1)
+        perm = list(range(nq))
+        while perm == list(range(nq)):
+            rng.shuffle(perm)
+        check_mapped_eq(ctx, {"nq": nq, "specs": specs, "perm": perm, "kind": "mapped"})
+        n_m += 1
+    ctx.suite("compare_map_compare", cases=n_m)
 
 
 def run_pairs_and_history(ctx):
@@ -216,12 +227,53 @@ def check_circuit_eq(ctx, case, pick):
             ctx.oracle_fail("circuits", {**case, "alt_index": k}, "circuit equality is not statement-wise", None)
 
 
+def check_mapped_eq(ctx, case):
+    """compare, map the circuit (Circuit.map relabels the gate objects in place), compare again: what == answers for a
+    gate object that has been compared before and relabelled since must be what it answers for a freshly built gate"""
+    from harness import implrun
+    from harness.props import decomp_common as dc
+
+    nq, specs, perm = case["nq"], case["specs"], case["perm"]
+    c = gen.build_circuit(nq, 1, specs)
+    twin = gen.build_circuit(nq, 1, specs)
+    ctx.seen(case)
+    stmts = list(c.ir.statements)
+    tw = list(twin.ir.statements)
+    for x, y in zip(stmts, tw):            # every statement takes part in a comparison before the mapping
+        py_eq(x, y)
+        py_eq(y, x)
+    py_eq(c, twin)
+    try:
+        implrun.apply_pass(c, ["map", perm])
+    except Exception:  # noqa: BLE001
+        return
+    ref = list(gen.build_circuit(nq, 1, dc.relabel_specs(specs, {q: perm[q] for q in range(nq)})).ir.statements)
+    after = list(c.ir.statements)
+    if len(after) != len(ref):
+        return
+    for i, (m, r, t) in enumerate(zip(after, ref, tw)):
+        if not oracles.is_gate(r):
+            continue
+        r2 = gen.build_stmt(dc.relabel_spec(specs[i], {q: perm[q] for q in range(nq)}))
+        for name, got, want in (("mapped == fresh relabelled", py_eq(m, r), py_eq(r2, r)),
+                                ("fresh relabelled == mapped", py_eq(r, m), py_eq(r, r2)),
+                                ("mapped == unmapped twin", py_eq(m, t), py_eq(r, t)),
+                                ("unmapped twin == mapped", py_eq(t, m), py_eq(t, r))):
+            if got != want:
+                ctx.oracle_fail("mapped", case, f"statement {i}: `{name}` answers {got} for the gate object that was compared before the "
+                                f"mapping, {want} for freshly built gates", None)
+                return
+
+
 def replay(ctx, payload):
     from harness import framework
 
     suite, case = framework.replay_target(payload)
     if case is None:
         return framework.replay_nothing(payload)
+    if case.get("kind") == "mapped":
+        check_mapped_eq(ctx, {k: case[k] for k in ("nq", "specs", "perm", "kind")})
+        return framework.replay_result(ctx)
     if case.get("kind") == "circuit":
         check_circuit_eq(ctx, {k: case[k] for k in ("nq", "specs", "kind")}, lambda n: case.get("alt_index", 0) % n)
         return framework.replay_result(ctx)
